@@ -55,6 +55,7 @@ type Frame struct {
 	// Exc_type      Object
 	// Exc_value     *Object
 	// Exc_traceback *Object
+	Exc ExceptionInfo // exception being handled when the frame yielded
 	// Borrowed reference to a generator, or NULL
 	// Gen Object
 
